@@ -372,7 +372,17 @@ def rule_R6n(body, arg=None):
     return body, n + k
 
 
-RULES = {"R6n": rule_R6n, "R10": rule_R10, "R11": rule_R11, "R1": rule_R1, "R2": rule_R2, "R3": rule_R3, "R4": rule_R4, "R6": rule_R6, "R7": rule_R7, "R8": rule_SUB}
+def rule_R1p(body, arg=None):
+    """`panic!(..)` / `unimplemented!(..)` / `unreachable!(..)`: a call of `vpanic()`, whose contract is
+    `requires false` - i.e. the unit must PROVE the panic unreachable under the function's precondition."""
+    n = 0
+    for mac in ("panic", "unimplemented", "unreachable"):
+        body, k = replace_calls(body, r"\b%s!" % mac, "vpanic()")
+        n += k
+    return body, n
+
+
+RULES = {"R1p": rule_R1p, "R6n": rule_R6n, "R10": rule_R10, "R11": rule_R11, "R1": rule_R1, "R2": rule_R2, "R3": rule_R3, "R4": rule_R4, "R6": rule_R6, "R7": rule_R7, "R8": rule_SUB}
 
 
 def apply_rules(body, rules, counts):
@@ -380,7 +390,7 @@ def apply_rules(body, rules, counts):
         r = r.strip()
         if not r:
             continue
-        m = re.match(r"(R\d+n?)(?:\[(.*)\])?$", r, re.S)
+        m = re.match(r"(R\d+[np]?)(?:\[(.*)\])?$", r, re.S)
         if not m or m.group(1) not in RULES:
             raise ValueError("unknown rule %r" % r)
         body, n = RULES[m.group(1)](body, m.group(2))
